@@ -176,6 +176,27 @@ pub const TARGETS: &[Target] = &[
     t!("Locale.fromParts", "SrcParse", LOCLIB, Some("Locale"), "from_parts", "Option Bytes → Option Bytes → Option Bytes → List Bytes → Option ExtMap → Locale", "UL.Locale.fromParts", &[], "Ops"),
     t!("Locale.intoParts", "SrcParse", LOCLIB, Some("Locale"), "into_parts", "Locale → Option Bytes × Option Bytes × Option Bytes × List Bytes × Bytes", "UL.Locale.intoParts", &[], "Ops"),
     t!("Locale.isMatch", "SrcParse", LOCLIB, Some("Locale"), "matches", "Locale → Locale → Bool → Bool → Bool", "UL.Locale.isMatch", &[], "Ops"),
+    // ---- glue: FromStr / PartialEq<&str> / conversions (trait impls)
+    t!("Language.fromStr", "SrcParse", LANG, Some("FromStr for Language"), "from_str", "Bytes → Res (Option Bytes)", "UL.Language.fromBytes", &[], "Glue"),
+    t!("Script.fromStr", "SrcParse", SCRIPT, Some("FromStr for Script"), "from_str", "Bytes → Res Bytes", "UL.Script.fromBytes", &[], "Glue"),
+    t!("Region.fromStr", "SrcParse", REGION, Some("FromStr for Region"), "from_str", "Bytes → Res Bytes", "UL.Region.fromBytes", &[], "Glue"),
+    t!("Variant.fromStr", "SrcParse", VARIANT, Some("FromStr for Variant"), "from_str", "Bytes → Res Bytes", "UL.Variant.fromBytes", &[], "Glue"),
+    t!("Script.asStr", "SrcParse", SCRIPT, Some("Script"), "as_str", "Bytes → Bytes", "(fun (s : UL.Bytes) => s)", &[], "Glue"),
+    t!("Region.asStr", "SrcParse", REGION, Some("Region"), "as_str", "Bytes → Bytes", "(fun (s : UL.Bytes) => s)", &[], "Glue"),
+    t!("Variant.asStr", "SrcParse", VARIANT, Some("Variant"), "as_str", "Bytes → Bytes", "(fun (s : UL.Bytes) => s)", &[], "Glue"),
+    t!("Language.eqStr", "SrcParse", LANG, Some("PartialEq<&str> for Language"), "eq", "Option Bytes → Bytes → Bool", "UL.Language.eqStr", &[], "Glue"),
+    t!("Script.eqStr", "SrcParse", SCRIPT, Some("PartialEq<&str> for Script"), "eq", "Bytes → Bytes → Bool", "(fun (s t : UL.Bytes) => s == t)", &[], "Glue"),
+    t!("Region.eqStr", "SrcParse", REGION, Some("PartialEq<&str> for Region"), "eq", "Bytes → Bytes → Bool", "(fun (s t : UL.Bytes) => s == t)", &[], "Glue"),
+    t!("Variant.eqStr", "SrcParse", VARIANT, Some("PartialEq<&str> for Variant"), "eq", "Bytes → Bytes → Bool", "(fun (s t : UL.Bytes) => s == t)", &[], "Glue"),
+    t!("Variant.eqStr2", "SrcParse", VARIANT, Some("PartialEq<str> for Variant"), "eq", "Bytes → Bytes → Bool", "(fun (s t : UL.Bytes) => s == t)", &[], "Glue"),
+    t!("Language.clear", "SrcParse", LANG, Some("Language"), "clear", "Option Bytes → Option Bytes", "(fun (_ : Option UL.Bytes) => (none : Option UL.Bytes))", &[], "Glue"),
+    t!("Language.tryFromOption", "SrcParse", LANG, Some("TryFrom<Option<T>> for Language"), "try_from", "Option Bytes → Res (Option Bytes)", "UL.Language.tryFromOption", &[], "Glue"),
+    t!("LangId.fromStr", "SrcParse", LIB, Some("FromStr for LanguageIdentifier"), "from_str", "Bytes → Res LangId", "UL.LangId.fromBytes", &[], "Glue"),
+    t!("LangId.eqStr", "SrcParse", LIB, Some("PartialEq<&str> for LanguageIdentifier"), "eq", "LangId → Bytes → Bool", "UL.LangId.eqStr", &[], "Glue"),
+    t!("ExtMap.fromStr", "SrcParse", EXTMOD, Some("FromStr for ExtensionsMap"), "from_str", "Bytes → Res ExtMap", "UL.ExtMap.fromBytes", &[], "Glue"),
+    t!("Locale.fromStr", "SrcParse", LOCLIB, Some("FromStr for Locale"), "from_str", "Bytes → Res Locale", "UL.Locale.fromBytes", &[], "Glue"),
+    t!("Locale.ofLangId", "SrcParse", LOCLIB, Some("From<LanguageIdentifier> for Locale"), "from", "LangId → Locale", "UL.Locale.ofLangId", &[], "Glue"),
+    t!("Locale.toLangId", "SrcParse", LOCLIB, Some("From<Locale> for LanguageIdentifier"), "from", "Locale → LangId", "UL.Locale.toLangId", &[], "Glue"),
     // ---- likely subtags and character direction: the tables are the parameters `T : Tables`, `L : Layout` of the model
     //      (their content is translated from the compiled crate, `Gen/Tables.lean`); `.unwrap()` and table indexing may
     //      panic, so these definitions return `Res`
